@@ -32,13 +32,17 @@ func (d *Duration) UnmarshalText(text []byte) error {
 }
 
 type fileConfig struct {
-	mainConfig   *configContents
-	mainHash     string
-	rulesConfig  *V2SamplerConfig
-	rulesHash    string
-	opts         *CmdEnv
-	callbacks    []ConfigReloadCallback
-	mux          sync.RWMutex
+	mainConfig  *configContents
+	mainHash    string
+	rulesConfig *V2SamplerConfig
+	rulesHash   string
+	opts        *CmdEnv
+	callbacks   []ConfigReloadCallback
+	mux         sync.RWMutex
+	// reloadMux serializes reloads from reading the sources to storing the result, so that
+	// overlapping triggers (timer, pubsub, OpAMP) neither apply the same change twice nor
+	// overwrite a newer config with an older read. It is not held while callbacks run.
+	reloadMux    sync.Mutex
 	lastLoadTime time.Time
 	// currentVersion is the version startup validated against; reloads must judge
 	// deprecations the same way startup did.
@@ -655,9 +659,28 @@ func NewConfig(opts *CmdEnv, currentVersion ...string) (Config, error) {
 // Reload attempts to reload the configuration; if it has changed, it stores the
 // new data and calls the reload callbacks.
 func (f *fileConfig) Reload(opts ...ReloadedConfigDataOption) error {
+	cfg, callbacks, err := f.reloadAndStore(opts...)
+	if cfg == nil {
+		return err
+	}
+
+	// the callbacks run outside of any lock -- we don't want them to deadlock
+	for _, cb := range callbacks {
+		cb(cfg.mainHash, cfg.rulesHash)
+	}
+	return nil
+}
+
+// reloadAndStore rereads and validates the configuration and, if it has changed,
+// stores it. It returns the stored config and the callbacks to notify, or a nil
+// config if nothing was stored. Only one reload does this at a time.
+func (f *fileConfig) reloadAndStore(opts ...ReloadedConfigDataOption) (*fileConfig, []ConfigReloadCallback, error) {
+	f.reloadMux.Lock()
+	defer f.reloadMux.Unlock()
+
 	cData, rData, err := newConfigAndRules(f.opts)
 	if err != nil {
-		return err
+		return nil, nil, err
 	}
 
 	newData := &ReloadedConfigData{
@@ -674,26 +697,22 @@ func (f *fileConfig) Reload(opts ...ReloadedConfigDataOption) error {
 	// as in NewConfig, only a nil cfg is fatal; a non-nil cfg with an error carries
 	// warnings only, and a config that startup accepts must be accepted here too
 	if cfg == nil {
-		return err
+		return nil, nil, err
 	}
 
 	// if nothing's changed, we're fine
 	if f.mainHash == cfg.mainHash && f.rulesHash == cfg.rulesHash {
-		return nil
+		return nil, nil, nil
 	}
 
-	// otherwise, update our state and call the callbacks
+	// otherwise, update our state
 	f.mux.Lock()
+	defer f.mux.Unlock()
 	f.mainConfig = cfg.mainConfig
 	f.mainHash = cfg.mainHash
 	f.rulesConfig = cfg.rulesConfig
 	f.rulesHash = cfg.rulesHash
-	f.mux.Unlock() // can't defer -- we don't want callbacks to deadlock
-
-	for _, cb := range f.callbacks {
-		cb(cfg.mainHash, cfg.rulesHash)
-	}
-	return nil
+	return cfg, append([]ConfigReloadCallback(nil), f.callbacks...), nil
 }
 
 // GetHashes returns the current hash values for the main and rules configs.
